@@ -186,6 +186,10 @@ def build_condition(cs, shared=None):
             dfs = shared["data_dict"]                   # the *same* dict object in several conditions
         else:
             dfs = {name: data_fun(list(args)) for name, args in cs["data_fns"].items()}
+            if cs.get("wrap_user_fun"):
+                # users may hand over already wrapped functions
+                from torchphysics.utils import UserFunction
+                dfs = {k: UserFunction(v) for k, v in dfs.items()}
         kw["data_functions"] = dfs
         b["user_dict"] = dfs
         b["user_dict_snapshot"] = {k: v for k, v in dfs.items()}
@@ -412,9 +416,30 @@ def run_c14(case):
             import torchphysics as tp
             # ---------------- shared world: user objects handed to several conditions
             shared = {}
+            probe_pts = {"x": torch.tensor([[0.25, 0.5], [0.75, 0.125], [0.5, 0.875]]), "t": torch.tensor([[0.5], [1.0], [1.5]])}
+
+            def behaviour(d):
+                """What the user's function objects compute on fixed probe rows."""
+                out_ = {}
+                for k_, f_ in d.items():
+                    try:
+                        from torchphysics.utils import UserFunction
+                        if isinstance(f_, UserFunction):
+                            out_[k_] = f_(dict(probe_pts)).detach().clone() if callable(f_.fun) else ("constant", tuple(f_.fun.shape))
+                        else:
+                            import inspect
+                            names = list(inspect.signature(f_).parameters)
+                            out_[k_] = f_(**{n_: probe_pts[n_] for n_ in names}).detach().clone()
+                    except Exception as ex_:
+                        out_[k_] = ("raises", type(ex_).__name__)
+                return out_
             if sharing.get("data_dict"):
                 first = next(cs for cs in specs if cs.get("data_fns"))
                 shared["data_dict"] = {name: data_fun(list(args)) for name, args in first["data_fns"].items()}
+                if sharing.get("wrapped"):
+                    from torchphysics.utils import UserFunction
+                    shared["data_dict"] = {k_: UserFunction(v_) for k_, v_ in shared["data_dict"].items()}
+                behaviour_before = behaviour(shared["data_dict"])
             if sharing.get("domains"):
                 shared["domains"] = {n: make_domain(n) for n in ("square", "disc", "ring", "bsquare")}
             user_dict_before = dict(shared["data_dict"]) if "data_dict" in shared else None
@@ -427,7 +452,8 @@ def run_c14(case):
                     sim.begin_op()
                     builds[i] = build_condition(specs[i], dict(shared))
                     sim.reseed(H(case["rng"], "op", step))
-                    solo[i] = build_condition(specs[i], {})        # the same recipe, alone, fresh inputs
+                    solo_spec = dict(specs[i], wrap_user_fun=bool(sharing.get("wrapped")))
+                    solo[i] = build_condition(solo_spec, {})       # the same recipe, alone, fresh inputs
                     log.append(["construct", i])
                 elif op["op"] == "evaluate" and i in builds:
                     it = op.get("iteration")
@@ -467,6 +493,16 @@ def run_c14(case):
                         out.append(viol("C14", "containers", "user-dictionary-modified", "",
                                         after=[type(v).__name__ for v in d.values()]))
                         user_dict_before = dict(d)
+                    else:
+                        now = behaviour(d)
+                        same_b = all((torch.equal(now[k_], behaviour_before[k_]) if isinstance(now[k_], torch.Tensor)
+                                      and isinstance(behaviour_before[k_], torch.Tensor) else now[k_] == behaviour_before[k_]
+                                      if not isinstance(now[k_], torch.Tensor) and not isinstance(behaviour_before[k_], torch.Tensor)
+                                      else False) for k_ in now)
+                        if not same_b:
+                            out.append(viol("C14", "containers", "user-function-object-modified", "",
+                                            now=[str(v_)[:40] for v_ in now.values()]))
+                            behaviour_before = now
             stats["constructed"] = len(builds)
         except Exception as ex:
             out.append(viol("C14", "run", "raises:" + type(ex).__name__, innermost_site(ex.__traceback__),
